@@ -109,11 +109,11 @@ Qed.
 Lemma GGas_inj : forall a b, GGas a = GGas b -> a = b.
 Proof. intros a b H. injection H. auto. Qed.
 
-Lemma required_gas_nonneg : forall F P inp rq, required_gas F P inp = GGas rq -> 0 <= rq.
+Lemma required_gas_nonneg : forall F P c4 inp rq, required_gas F P c4 inp = GGas rq -> 0 <= rq.
 Proof.
-  intros F P inp rq H. unfold required_gas in H.
+  intros F P c4 inp rq H. unfold required_gas in H.
   destruct (i_len inp <? 4) eqn:E.
-  - destruct (f_len_guard F); [|discriminate]. apply GGas_inj in H. rewrite <- H. unfold tx_gas. lia.
+  - destruct (f_len_guard F || c4); [|discriminate]. apply GGas_inj in H. rewrite <- H. unfold tx_gas. lia.
   - apply Z.ltb_ge in E. destruct (selected P inp) as [mf|].
     + destruct (mf_mutation mf); apply GGas_inj in H; rewrite <- H; lia.
     + apply GGas_inj in H. rewrite <- H. unfold tx_gas. lia.
@@ -163,12 +163,12 @@ Section RunProofs.
     repeat dmatch; simpl; rewrite ?oog_left; try lia; apply CB; assumption.
   Qed.
 
-  Lemma run_pc_left : forall F P ro value gas inp st,
-    0 <= gas -> 0 <= r_left (run_pc F P ro value gas inp st) <= gas.
+  Lemma run_pc_left : forall F P c4 ro value gas inp st,
+    0 <= gas -> 0 <= r_left (run_pc F P c4 ro value gas inp st) <= gas.
   Proof.
-    intros F P ro value gas inp st H. unfold Model.run_pc.
-    destruct (required_gas F P inp) as [|rq] eqn:RG; simpl; [lia|].
-    pose proof (required_gas_nonneg _ _ _ _ RG) as RQ.
+    intros F P c4 ro value gas inp st H. unfold Model.run_pc.
+    destruct (required_gas F P c4 inp) as [|rq] eqn:RG; simpl; [lia|].
+    pose proof (required_gas_nonneg _ _ _ _ _ RG) as RQ.
     destruct (gas <? rq) eqn:E; simpl; [lia|]. apply Z.ltb_ge in E.
     assert (G1 : 0 <= gas - rq) by lia.
     repeat dmatch; simpl; try lia.
@@ -180,8 +180,8 @@ Section RunProofs.
     0 <= gas -> 0 <= r_left (evm_call F p k value gas inp st) <= gas.
   Proof.
     intros F p k value gas inp st H. unfold Model.evm_call.
-    match goal with |- context [Model.run_pc St body ?a ?b ?c ?d ?e ?f ?g] =>
-      pose proof (run_pc_left a b c d e f g H) as B; destruct (Model.run_pc St body a b c d e f g) as [o l s] end.
+    match goal with |- context [Model.run_pc St body ?a ?b ?c4 ?c ?d ?e ?f ?g] =>
+      pose proof (run_pc_left a b c4 c d e f g H) as B; destruct (Model.run_pc St body a b c4 c d e f g) as [o l s] end.
     simpl in *. destruct o; simpl; lia.
   Qed.
 
@@ -191,8 +191,8 @@ Section RunProofs.
     r_st (evm_call F p k value gas inp st) = st /\ r_left (evm_call F p k value gas inp st) = 0.
   Proof.
     intros F p k value gas inp st. unfold Model.evm_call.
-    match goal with |- context [Model.run_pc St body ?a ?b ?c ?d ?e ?f ?g] =>
-      destruct (Model.run_pc St body a b c d e f g) as [o l s] end.
+    match goal with |- context [Model.run_pc St body ?a ?b ?c4 ?c ?d ?e ?f ?g] =>
+      destruct (Model.run_pc St body a b c4 c d e f g) as [o l s] end.
     simpl. destruct o; simpl; intro H; try discriminate; split; reflexivity.
   Qed.
 
@@ -214,16 +214,16 @@ Section RunProofs.
     repeat dmatch; simpl; intro H; try discriminate; (split; [auto|split; [reflexivity|eauto]]).
   Qed.
 
-  Lemma run_pc_ok : forall F P ro value gas inp st,
-    r_out (run_pc F P ro value gas inp st) = Ok ->
+  Lemma run_pc_ok : forall F P c4 ro value gas inp st,
+    r_out (run_pc F P c4 ro value gas inp st) = Ok ->
     exists mf args rq,
       selected P inp = Some mf /\ i_unpack inp = Some args /\ mf_in_switch mf = true /\
-      required_gas F P inp = GGas rq /\
+      required_gas F P c4 inp = GGas rq /\
       guard_passes mf ro value /\ validate F (mf_id mf) args = VPass /\
-      exists st' u, body (mf_id mf) args st (gas - rq) = BOk st' u /\ r_st (run_pc F P ro value gas inp st) = st'.
+      exists st' u, body (mf_id mf) args st (gas - rq) = BOk st' u /\ r_st (run_pc F P c4 ro value gas inp st) = st'.
   Proof.
-    intros F P ro value gas inp st. unfold Model.run_pc.
-    destruct (required_gas F P inp) as [|rq] eqn:RG; simpl; [discriminate|].
+    intros F P c4 ro value gas inp st. unfold Model.run_pc.
+    destruct (required_gas F P c4 inp) as [|rq] eqn:RG; simpl; [discriminate|].
     destruct (gas <? rq); simpl; [discriminate|].
     destruct (i_len inp <? 4); simpl; [discriminate|].
     destruct (selected P inp) as [mf|] eqn:S; simpl; [|discriminate].
@@ -242,14 +242,15 @@ Section RunProofs.
     repeat dmatch; simpl; intro H; try discriminate; auto.
   Qed.
 
-  Lemma run_pc_panic : forall F P ro value gas inp st,
-    r_out (run_pc F P ro value gas inp st) = Panic ->
+  Lemma run_pc_panic : forall F P c4 ro value gas inp st,
+    r_out (run_pc F P c4 ro value gas inp st) = Panic ->
     f_len_guard F = false \/ pf_oog_deferred P = false \/
     exists mf args, selected P inp = Some mf /\ i_unpack inp = Some args /\ validate F (mf_id mf) args = VPanic.
   Proof.
-    intros F P ro value gas inp st. unfold Model.run_pc.
-    destruct (required_gas F P inp) as [|rq] eqn:RG; simpl.
-    - intros _. left. unfold required_gas in RG. repeat dmatch_in RG; try discriminate. reflexivity.
+    intros F P c4 ro value gas inp st. unfold Model.run_pc.
+    destruct (required_gas F P c4 inp) as [|rq] eqn:RG; simpl.
+    - intros _. left. unfold required_gas in RG. repeat dmatch_in RG; try discriminate.
+      apply orb_false_iff in Heqb0. tauto.
     - destruct (gas <? rq); simpl; [discriminate|].
       destruct (i_len inp <? 4); simpl; [discriminate|].
       destruct (selected P inp) as [mf|] eqn:S; simpl; [|discriminate].
@@ -261,12 +262,12 @@ Section RunProofs.
 
   Lemma evm_call_out : forall F p k value gas inp st,
     r_out (evm_call F p k value gas inp st) =
-    r_out (run_pc F (pc_of F p) (pc_readonly F k) (pc_value k value) gas inp
+    r_out (run_pc F (pc_of F p) (cap4_of k inp) (pc_readonly F k) (pc_value k value) gas inp
              (if transfers k && negb (value =? 0) then transfer st value else st)).
   Proof.
     intros. unfold Model.evm_call.
-    match goal with |- context [Model.run_pc St body ?a ?b ?c ?d ?e ?f ?g] =>
-      destruct (Model.run_pc St body a b c d e f g) as [o l s] end.
+    match goal with |- context [Model.run_pc St body ?a ?b ?c4 ?c ?d ?e ?f ?g] =>
+      destruct (Model.run_pc St body a b c4 c d e f g) as [o l s] end.
     destruct o; reflexivity.
   Qed.
 
@@ -314,13 +315,13 @@ Section RunProofs.
       match body m args st lim with BOk st' _ | BErr st' _ | BOog st' => st' = st end.
 
   (** a successful run in read-only mode leaves the state as it was *)
-  Lemma run_pc_readonly_state : forall F P value gas inp st,
+  Lemma run_pc_readonly_state : forall F P c4 value gas inp st,
     pc_ok P = true -> query_bodies_readonly ->
-    r_out (run_pc F P true value gas inp st) = Ok ->
-    r_st (run_pc F P true value gas inp st) = st /\
+    r_out (run_pc F P c4 true value gas inp st) = Ok ->
+    r_st (run_pc F P c4 true value gas inp st) = st /\
     exists mf, selected P inp = Some mf /\ can_mutate (mf_id mf) = false.
   Proof.
-    intros F P value gas inp st PO QB H.
+    intros F P c4 value gas inp st PO QB H.
     apply run_pc_ok in H. destruct H as [mf [args [rq [S [U [SW [RG [GP [V [st' [u [B E]]]]]]]]]]]].
     pose proof (method_ok_parts _ (method_ok_of _ _ _ PO S)) as [_ [_ [MG [_ _]]]].
     destruct (can_mutate (mf_id mf)) eqn:CM.
@@ -330,13 +331,13 @@ Section RunProofs.
   Qed.
 
   (** a successful run of a query method changes nothing (any mode) *)
-  Lemma run_pc_query_state : forall F P ro value gas inp st mf,
+  Lemma run_pc_query_state : forall F P c4 ro value gas inp st mf,
     pc_ok P = true -> query_bodies_readonly ->
     selected P inp = Some mf -> mf_abi_view mf = true ->
-    r_out (run_pc F P ro value gas inp st) = Ok ->
-    r_st (run_pc F P ro value gas inp st) = st.
+    r_out (run_pc F P c4 ro value gas inp st) = Ok ->
+    r_st (run_pc F P c4 ro value gas inp st) = st.
   Proof.
-    intros F P ro value gas inp st mf PO QB S AV H.
+    intros F P c4 ro value gas inp st mf PO QB S AV H.
     apply run_pc_ok in H. destruct H as [mf' [args [rq [S' [U [SW [RG [GP [V [st' [u [B E]]]]]]]]]]]].
     rewrite S in S'. inversion S'. subst mf'.
     pose proof (method_ok_parts _ (method_ok_of _ _ _ PO S)) as [_ [_ [_ [MV _]]]].
@@ -346,12 +347,12 @@ Section RunProofs.
   Lemma evm_call_ok_st : forall F p k value gas inp st,
     r_out (evm_call F p k value gas inp st) = Ok ->
     r_st (evm_call F p k value gas inp st) =
-    r_st (run_pc F (pc_of F p) (pc_readonly F k) (pc_value k value) gas inp
+    r_st (run_pc F (pc_of F p) (cap4_of k inp) (pc_readonly F k) (pc_value k value) gas inp
             (if transfers k && negb (value =? 0) then transfer st value else st)).
   Proof.
     intros F p k value gas inp st. unfold Model.evm_call.
-    match goal with |- context [Model.run_pc St body ?a ?b ?c ?d ?e ?f ?g] =>
-      destruct (Model.run_pc St body a b c d e f g) as [o l s] end.
+    match goal with |- context [Model.run_pc St body ?a ?b ?c4 ?c ?d ?e ?f ?g] =>
+      destruct (Model.run_pc St body a b c4 c d e f g) as [o l s] end.
     destruct o; simpl; intro H; try discriminate; reflexivity.
   Qed.
 
@@ -360,8 +361,8 @@ Section RunProofs.
     r_out (evm_call F p k value gas inp st) = Ok \/ r_st (evm_call F p k value gas inp st) = st.
   Proof.
     intros F p k value gas inp st. unfold Model.evm_call.
-    match goal with |- context [Model.run_pc St body ?a ?b ?c ?d ?e ?f ?g] =>
-      destruct (Model.run_pc St body a b c d e f g) as [o l s] end.
+    match goal with |- context [Model.run_pc St body ?a ?b ?c4 ?c ?d ?e ?f ?g] =>
+      destruct (Model.run_pc St body a b c4 c d e f g) as [o l s] end.
     destruct o; simpl; intro H; auto. congruence.
   Qed.
 
@@ -381,7 +382,7 @@ Section RunProofs.
     split.
     - destruct (evm_call_st_cases F p k value gas inp st NP) as [OK|E]; [|assumption].
       pose proof OK as OK2. rewrite evm_call_out, RO, ST in OK2.
-      apply (run_pc_readonly_state F _ _ _ _ _ PO QB) in OK2. destruct OK2 as [E _].
+      apply (run_pc_readonly_state F _ _ _ _ _ _ PO QB) in OK2. destruct OK2 as [E _].
       rewrite (evm_call_ok_st _ _ _ _ _ _ _ OK), RO, ST. assumption.
     - intros NV OK. rewrite evm_call_out, RO, ST in OK.
       apply run_pc_ok in OK. destruct OK as [mf [args [rq [S [_ [_ [_ [GP _]]]]]]]].
@@ -405,7 +406,7 @@ Section RunProofs.
     pose proof (pc_ok_of F p GO) as PO.
     destruct (evm_call_st_cases F p k value gas inp st NP) as [OK|E]; [|split; auto].
     pose proof OK as OK2. rewrite evm_call_out in OK2.
-    pose proof (run_pc_query_state F _ _ _ _ _ _ _ PO QB S AV OK2) as E.
+    pose proof (run_pc_query_state F _ _ _ _ _ _ _ _ PO QB S AV OK2) as E.
     rewrite (evm_call_ok_st _ _ _ _ _ _ _ OK), E.
     destruct (transfers k) eqn:T; simpl; [|split; auto].
     destruct (value =? 0) eqn:V; simpl; [split; auto|].
